@@ -22,6 +22,8 @@ LIT = {"int": "42", "float": "2.5", "neg": "-3", "hex": "0xFF", "oct": "0o17", "
        "strqend": '"a\\""', "strqstart": '"\\"a"', "strqonly": '"\\""', "strq2end": '"a\\"\\""', "strbsend": '"a\\\\"', "strbsonly": '"\\\\"',
        "strbsq": '"a\\\\\\""', "strq2mid": '"a\\"\\"b"', "strq3mid": '"a\\"\\"\\"b"', "strbrace": '"{x} [y]"', "struni": '"h\u00e9 \u2211"', "strsemi": '"a; b -- c"', "strdash": '"-- x"',
        "atom": ":ok", "empty": "_", "true": "true", "false": "false", "big": "123456789012", "leaddot": ".5"}
+# complex literals: (real part form) x (sign) x (imaginary part form), and negated real literals (spec/MC_C08c.tla Lits)
+LIT.update({'cx_int_p_int': '2+2i', 'cx_int_p_float': '2+1.5i', 'cx_int_p_sci': '2+1.5e3i', 'cx_int_p_scineg': '2+2.5e-3i', 'cx_int_m_int': '2-2i', 'cx_int_m_float': '2-1.5i', 'cx_int_m_sci': '2-1.5e3i', 'cx_int_m_scineg': '2-2.5e-3i', 'cx_float_p_int': '1.5+2i', 'cx_float_p_float': '1.5+1.5i', 'cx_float_p_sci': '1.5+1.5e3i', 'cx_float_p_scineg': '1.5+2.5e-3i', 'cx_float_m_int': '1.5-2i', 'cx_float_m_float': '1.5-1.5i', 'cx_float_m_sci': '1.5-1.5e3i', 'cx_float_m_scineg': '1.5-2.5e-3i', 'cx_sci_p_int': '1.5e3+2i', 'cx_sci_p_float': '1.5e3+1.5i', 'cx_sci_p_sci': '1.5e3+1.5e3i', 'cx_sci_p_scineg': '1.5e3+2.5e-3i', 'cx_sci_m_int': '1.5e3-2i', 'cx_sci_m_float': '1.5e3-1.5i', 'cx_sci_m_sci': '1.5e3-1.5e3i', 'cx_sci_m_scineg': '1.5e3-2.5e-3i', 'cx_scineg_p_int': '2.5e-3+2i', 'cx_scineg_p_float': '2.5e-3+1.5i', 'cx_scineg_p_sci': '2.5e-3+1.5e3i', 'cx_scineg_p_scineg': '2.5e-3+2.5e-3i', 'cx_scineg_m_int': '2.5e-3-2i', 'cx_scineg_m_float': '2.5e-3-1.5i', 'cx_scineg_m_sci': '2.5e-3-1.5e3i', 'cx_scineg_m_scineg': '2.5e-3-2.5e-3i', 'negfloat': '-2.5', 'negsci': '-1.5e3', 'negscineg': '-2.5e-2', 'negrat': '-3/4', 'negimag': '-2i', 'imagsci': '1e3i', 'negimagsci': '-1e3i'})
 
 def render(cs):
     f, a, b, c, d = cs["fam"], cs["a"], cs["b"], cs["c"], cs["d"]
